@@ -554,26 +554,20 @@ fn bn_digit_to_en_digit(digit: char, line: u32, src_file_path: &str) -> Result<f
 }
 
 fn skip_comment_block(src: &Vec<char>, start: usize, line: u32, src_file_path: &str) -> Result<(usize, u32), PakhiErr> {
-    let mut char_skipped: usize = 1;
+    let mut i = start + 1;
     let mut lines_skipped: u32 = 0;
-    while src[start + char_skipped] != '#' {
-        if (start + char_skipped + 1) > src.len() - 1 {
-            return Err(SyntaxError(line, src_file_path.to_string(), "Comment block wasn't closed".to_string()))
-        }
-        if src[start + char_skipped] == '\\' && src[start + char_skipped + 1] == '#' {
+    loop {
+        match src.get(i) {
+            None => return Err(SyntaxError(line, src_file_path.to_string(), "Comment block wasn't closed".to_string())),
+            Some('#') => break,
             // if # escaped with \ skipping this #
-            char_skipped += 2;
-            continue;
-        }
-        char_skipped += 1;
-        if src[start + char_skipped] == '\n' {
-            lines_skipped += 1;
+            Some('\\') if src.get(i + 1) == Some(&'#') => i += 2,
+            Some('\n') => { lines_skipped += 1; i += 1; },
+            Some(_) => i += 1,
         }
     }
     // skipping last #
-    char_skipped += 1;
-
-    Ok((char_skipped, lines_skipped))
+    Ok((i + 1 - start, lines_skipped))
 }
 
 #[cfg(test)]
